@@ -43,10 +43,10 @@ DERIVED_OK = {
 }
 
 
-def rule_agreement(ck):
+def rule_agreement(ck, classes=None, rid="C09.R1", rid2="C09.R2"):
     repo = ck.repo
     n_cls = 0
-    for cname in CORE:
+    for cname in (classes or CORE):
         ci = repo.cls(cname)
         n_cls += 1
         attrs = written_attrs(repo, ci)
@@ -57,27 +57,27 @@ def rule_agreement(ck):
         # R1a attributes = dumped keys
         for a in sorted(akeys - dkeys):
             f, node = attrs[a][0]
-            ck.violation("C09.R1", f, node, f"attribute {cname}.{a} is written but never dumped by _to_dict: a resumed/loaded object loses it "
+            ck.violation(rid, f, node, f"attribute {cname}.{a} is written but never dumped by _to_dict: a resumed/loaded object loses it "
                          f"(only a warning at dump time)", sink=f"{cname}:{a}:not-dumped")
         for k in sorted(dkeys - akeys):
             e = dump[k]
-            ck.violation("C09.R1", e.fn, e.node.stmt, f"_to_dict dumps key {k!r} which is not an instance attribute of {cname}", sink=f"{cname}:{k}:not-attr")
+            ck.violation(rid, e.fn, e.node.stmt, f"_to_dict dumps key {k!r} which is not an instance attribute of {cname}", sink=f"{cname}:{k}:not-attr")
         for a in sorted(akeys & dkeys):
-            ck.holds("C09.R1", attrs[a][0][0], f"{cname}.{a}", "attribute is dumped")
+            ck.holds(rid, attrs[a][0][0], f"{cname}.{a}", "attribute is dumped")
         # R1b dumped keys are restored
         for k in sorted(dkeys - read_keys):
             e = dump[k]
-            ck.violation("C09.R1", e.fn, e.node.stmt, f"key {k!r} is dumped but {cname}._from_dict never reads it: the loaded object does not "
+            ck.violation(rid, e.fn, e.node.stmt, f"key {k!r} is dumped but {cname}._from_dict never reads it: the loaded object does not "
                          f"carry this state", sink=f"{cname}:{k}:not-restored")
         for k in sorted(read_keys - dkeys):
             f, node, legacy, guarded = [r for r in rest.reads[k] if not r[2]][0]
             if guarded:
                 ck.note(f"{cname}._from_dict reads optional key {k!r} that _to_dict does not produce (guarded)")
                 continue
-            ck.violation("C09.R1", f, node, f"_from_dict reads key {k!r} which {cname}._to_dict never produces (KeyError at load time)",
+            ck.violation(rid, f, node, f"_from_dict reads key {k!r} which {cname}._to_dict never produces (KeyError at load time)",
                          sink=f"{cname}:{k}:not-dumped-read")
         for k in sorted(dkeys & read_keys):
-            ck.holds("C09.R1", rest.reads[k][0][0], f"{cname}[{k!r}]", "dumped key is read back")
+            ck.holds(rid, rest.reads[k][0][0], f"{cname}[{k!r}]", "dumped key is read back")
         # R1c same-name dump
         for k, e in sorted(dump.items()):
             if e.by_name:
@@ -86,7 +86,7 @@ def rule_agreement(ck):
                 pass
             want = f"self.{k}"
             ok = want in e.roots
-            ck.require(ok, "C09.R1", e.fn, e.node.stmt if hasattr(e.node, "stmt") else k, ok=f"dumped value of {k!r} derives from self.{k}",
+            ck.require(ok, rid, e.fn, e.node.stmt if hasattr(e.node, "stmt") else k, ok=f"dumped value of {k!r} derives from self.{k}",
                        bad=f"the value dumped under {k!r} derives from {sorted(e.roots) or 'no attribute'}, not from self.{k} (cross-wired field)",
                        sink=f"{e.fn.cls.name}:{k}:dump-source")
         # R1d same-name restore (keys only read on a legacy `except` compatibility path are not part of today's format)
@@ -97,13 +97,13 @@ def rule_agreement(ck):
                 continue
             if kind in ("attr", "setattr"):
                 ok = keys == {name}
-                ck.require(ok, "C09.R1", f, node, ok=f"attribute {name} restored from key {name!r}",
+                ck.require(ok, rid, f, node, ok=f"attribute {name} restored from key {name!r}",
                            bad=f"attribute {name} is restored from key(s) {sorted(keys)} (must be its own key {name!r})",
                            sink=f"{cname}:{name}:restore-source")
             else:
                 accepted = set(init_map.get(name, ())) | {name, "_" + name}
                 ok = keys <= accepted
-                ck.require(ok, "C09.R1", f, node, ok=f"constructor argument {name} fed by key(s) {sorted(keys)}",
+                ck.require(ok, rid, f, node, ok=f"constructor argument {name} fed by key(s) {sorted(keys)}",
                            bad=f"constructor argument {name} (stored as {sorted(init_map.get(name, ()))}) is fed by key(s) {sorted(keys)}",
                            sink=f"{cname}:{name}:ctor-source")
         # every dumped key reaches the object: either a sink carries it or its attribute is set by the constructor from it
@@ -112,23 +112,56 @@ def rule_agreement(ck):
             sunk |= keys
         for k in sorted((dkeys & read_keys) - sunk):
             f, node, legacy, guarded = rest.reads[k][0]
-            ck.violation("C09.R1", f, node, f"key {k!r} is read but its value never reaches the restored {cname} object", sink=f"{cname}:{k}:read-dropped")
+            ck.violation(rid, f, node, f"key {k!r} is read but its value never reaches the restored {cname} object", sink=f"{cname}:{k}:read-dropped")
         # R2 nested objects through the registry
         for k in sorted(NESTED.get(cname, ())):
             if k not in dump:
                 continue
             e = dump[k]
-            ck.require(e.via_registry, "C09.R2", e.fn, e.node.stmt if hasattr(e.node, "stmt") else k, ok=f"{k} is dumped through _to_registry (sharing preserved)",
+            ck.require(e.via_registry, rid2, e.fn, e.node.stmt if hasattr(e.node, "stmt") else k, ok=f"{k} is dumped through _to_registry (sharing preserved)",
                        bad=f"nested simulator object(s) under {k!r} are not dumped through _to_registry: object sharing is lost", sink=f"{cname}:{k}:dump-registry")
             sinks = [s for s in rest.sinks if k in s[2]]
             okb = bool(sinks) and all(s[3] for s in sinks)
-            ck.require(okb, "C09.R2", rest.funcs[0], sinks[0][5] if sinks else k, ok=f"{k} is loaded through _build_from_id (one shared object per id)",
+            ck.require(okb, rid2, rest.funcs[0], sinks[0][5] if sinks else k, ok=f"{k} is loaded through _build_from_id (one shared object per id)",
                        bad=f"nested simulator object(s) under {k!r} are not loaded through _build_from_id", sink=f"{cname}:{k}:load-registry")
-    ck.floor("C09.R1", n_cls, 15, "core BaseSimObj classes analysed")
+    if classes is not None:
+        return
+    ck.floor(rid, n_cls, 15, "core BaseSimObj classes analysed")
     # classes not in CORE
     for c in ck.repo.subclasses("BaseSimObj"):
         if c.name not in CORE and c.name not in SKIP and "/tests/" not in c.module:
-            ck.error("C09.R1", f"BaseSimObj subclass {c.name} ({c.module}) is not in the analysed table (re-anchor)")
+            ck.error(rid, f"BaseSimObj subclass {c.name} ({c.module}) is not in the analysed table (re-anchor)")
+
+
+def rule_ctor_identity(ck):
+    """R2 (constructor side): a nested simulator object handed to a constructor is stored as-is (same object), so the object the
+    loader obtained from the registry - shared with stations, histories and pending events - is the one the new object uses."""
+    repo = ck.repo
+    n = 0
+    for cname, attrs in sorted(NESTED.items()):
+        ci = repo.cls(cname)
+        for c in repo.mro(ci):
+            init = c.methods.get("__init__")
+            if init is None:
+                continue
+            fl = flow_of(init)
+            params = set(init.params[1:])
+            for nd in fl.cfg.nodes:
+                if nd.kind != "stmt" or not isinstance(nd.stmt, (ast.Assign, ast.AnnAssign)) or getattr(nd.stmt, "value", None) is None:
+                    continue
+                tg = nd.stmt.targets if isinstance(nd.stmt, ast.Assign) else [nd.stmt.target]
+                for t in tg:
+                    if isinstance(t, ast.Attribute) and dotted(t.value) == "self" and t.attr in attrs:
+                        ex = fl.expand(nd.stmt.value, nd)
+                        names = {x.id for x in ast.walk(ex) if isinstance(x, ast.Name)} & params
+                        if not names:
+                            continue         # initialised empty (histories, queues built inside)
+                        n += 1
+                        ck.require(isinstance(ex, ast.Name) and ex.id in params, "C09.R2", init, nd.stmt, ok=f"self.{t.attr} is the very object passed in",
+                                   bad=f"`{src(nd.stmt, 70)}` stores a copy/transformation of the constructor argument: after a JSON load the object referenced from "
+                                       f"{cname}.{t.attr} is no longer the one shared with the rest of the simulation", sink=f"{c.name}:{t.attr}:ctor-identity")
+            break
+    ck.floor("C09.R2", n, 4, "constructor stores of nested simulator objects")
 
 
 def rule_threading(ck):
@@ -377,6 +410,7 @@ def rule_update_scheduler(ck):
 
 def run(ck):
     rule_agreement(ck)
+    rule_ctor_identity(ck)
     rule_threading(ck)
     rule_memo(ck)
     rule_queue_order(ck)
